@@ -80,6 +80,29 @@ def run_fa(case):
                     raise Fail("stale_answer_%s" % it.kind, "step %d: %s_accepts_word(%r) = %r on an object that was %s, but its current content %s the word; history: %s" %
                                (k, it.kind, w, got, "reused" if nqueries else "fresh", "accepts" if want else "rejects", [s["op"] + ":" + str(s.get("what", "")) for s in case["steps"][:k + 1]]))
                 nqueries += 1
+        elif op == "to_regexp" and it.kind == "dfa" and len(it.spec["Q"]) <= 4 and "start" not in it.spec["Q"] and "accept" not in it.spec["Q"]:
+            from ref import regex as RX
+            from bridge import regex as BR
+            from gambatools.regexp_algorithms import dfa_to_regexp
+            t = BR.snap(lib(dfa_to_regexp, it.obj))
+            S = sorted(it.spec["S"])
+            w = fa.equiv(RX.to_dfa(t, S) if RX.size(t) <= 200 else RX.to_dfa2(t, S), fa.rdfa(it.spec))
+            if w is not None:
+                raise Fail("derive_language_to_regexp", "step %d: dfa_to_regexp on an object with history %s gives an expression that differs from the current DFA on %r" %
+                           (k, [s["op"] + ":" + str(s.get("what", "")) for s in case["steps"][:k]], w))
+            nderived += 1
+            cls.add("derive_to_regexp")
+        elif op == "iso":
+            other = pool[step["j"] % len(pool)]
+            if it.kind == "dfa" and other.kind == "dfa" and sorted(it.spec["S"]) == sorted(other.spec["S"]):
+                want = fa.iso_reachable(fa.rdfa(it.spec), fa.rdfa(other.spec))
+                for name in ("dfa_isomorphic", "dfa_isomorphic1"):
+                    got = lib(getattr(DA, name), it.obj, other.obj)
+                    if got is not want:
+                        raise Fail("stale_answer_iso", "step %d: %s = %r on objects with a history, the reachable parts of their current contents are %sisomorphic; history: %s" %
+                                   (k, name, got, "" if want else "not ", [s["op"] + ":" + str(s.get("what", "")) for s in case["steps"][:k + 1]]))
+                nqueries += 1
+                cls.add("iso")
         elif op == "derive":
             if it.kind == "dfa":
                 name = step["what"] if step["what"] in DFA_DERIVE else "complement"
@@ -152,7 +175,14 @@ def fa_programs(draw, tier, focus="accept"):
     sigma = draw(st.sampled_from([["a"], ["a", "b"], ["a", "b"]]))
     steps = []
     for j in range(draw(st.integers(1, 2))):
-        if draw(st.booleans()) and not (focus == "subset" and j == 0):
+        if focus in ("regexp", "iso"):
+            spec = draw(G.dfa_specs(max_states=3 if focus == "regexp" else 4, sigma=sigma, pool=G.POOL[:12]))
+            steps.append({"op": "new", "spec": spec})
+            if focus == "iso" and draw(st.booleans()):
+                m = {q: q + "_c" for q in spec["Q"]}
+                steps.append({"op": "new", "spec": {"Q": [m[q] for q in spec["Q"]], "S": list(spec["S"]), "d": [[m[p], a, m[q]] for p, a, q in spec["d"]],
+                                                    "q0": m[spec["q0"]], "F": [m[q] for q in spec["F"]], "eps": None}})
+        elif draw(st.booleans()) and not (focus == "subset" and j == 0):
             steps.append({"op": "new", "spec": draw(G.dfa_specs(max_states=4, sigma=sigma))})
         else:
             steps.append({"op": "new", "spec": draw(G.nfa_specs(max_states=4, sigma=sigma, eps_choices=["", "ε"]))})
@@ -170,6 +200,10 @@ def fa_programs(draw, tier, focus="accept"):
                 continue
         if k <= 3:
             steps.append({"op": "query", "i": i, "words": draw(words)})
+        elif focus == "regexp" and k <= 5:
+            steps.append({"op": "to_regexp", "i": i})
+        elif focus == "iso" and k <= 5:
+            steps.append({"op": "iso", "i": i, "j": draw(st.integers(0, 5))})
         elif k <= 6:
             steps.append({"op": "derive", "i": i, "what": draw(st.sampled_from(derive_names if focus == "accept" else ["complement", "remove_unreachable", "reverse", "minimize"]))})
         elif k <= 8:
@@ -178,6 +212,10 @@ def fa_programs(draw, tier, focus="accept"):
         else:
             steps.append({"op": "new", "spec": draw(G.dfa_specs(max_states=3, sigma=sigma))})
     steps.append({"op": "query", "i": draw(st.integers(0, 5)), "words": draw(words)})
+    if focus == "regexp":
+        steps.append({"op": "to_regexp", "i": draw(st.integers(0, 5))})
+    if focus == "iso":
+        steps.append({"op": "iso", "i": draw(st.integers(0, 5)), "j": draw(st.integers(0, 5))})
     return {"steps": steps}
 
 
@@ -225,6 +263,21 @@ def run_pda(case):
                     want = RP.accepts(spec, w)
                     if got is not want:
                         raise Fail("stale_answer_pda", "step %d: pda_accepts_word(%r) = %r but the current content of the object %s it; history: %s" % (k, w, got, "accepts" if want else "rejects", hist))
+                    nq += 1
+            elif op == "simulate":
+                for w in step["words"]:
+                    w = "".join(c for c in w if c in spec["S"])[:L]
+                    rows = lib(PA.pda_simulate_word, P, w)
+                    want = RP.accepts(spec, w)
+                    if rows is None:
+                        if want:
+                            raise Fail("stale_simulation_pda", "step %d: pda_simulate_word(%r) returns None although the current content accepts it; history: %s" % (k, w, hist))
+                        continue
+                    if not want:
+                        raise Fail("stale_simulation_pda", "step %d: pda_simulate_word(%r) returns a run although the current content rejects it; history: %s" % (k, w, hist))
+                    err = RP.check_run(spec, [(r[0], r[1], list(r[2])) for r in rows], w)
+                    if err:
+                        raise Fail("stale_simulation_pda", "step %d: pda_simulate_word(%r): %s (validated against the current content); history: %s" % (k, w, err, hist))
                     nq += 1
             elif op == "is_push_pop":
                 got = lib(PA.pda_is_push_pop, P)
@@ -309,15 +362,20 @@ def pda_programs(draw, tier, focus="accept"):
     ops = ["query", "query", "is_push_pop", "one_accepting_in_place", "push_pop_in_place", "empty_stack_in_place", "edit", "edit", "to_cfg", "to_push_pop", "to_empty_stack"]
     if focus == "convert":
         ops += ["is_push_pop", "to_cfg", "to_cfg", "to_push_pop"]
+    if focus == "simulate":
+        ops += ["simulate", "simulate", "simulate", "edit"]
     for _ in range(draw(st.integers(2, 6 if tier == "quick" else 10))):
         op = draw(st.sampled_from(ops))
         st_ = {"op": op}
-        if op == "query":
+        if op in ("query", "simulate"):
             st_["words"] = draw(words)
         if op == "edit":
             st_.update(what=draw(st.sampled_from(["flip_final", "drop_transition", "add_transition"])), a=draw(st.integers(0, 7)), b=draw(st.integers(0, 7)), c=draw(st.integers(0, 3)))
         steps.append(st_)
     steps.append({"op": "query", "words": draw(words)})
+    if focus == "simulate":
+        steps.insert(1, {"op": "simulate", "words": draw(words)})
+        steps.append({"op": "simulate", "words": draw(words)})
     return {"pda": spec, "steps": steps}
 
 
